@@ -8,28 +8,28 @@ BASELINE_OFF = "cd /repo && cargo nextest run --workspace --no-fail-fast --offli
 CHECKS = {
  "C19": ("bounded-exhaustive enumeration + proptest round trip against a reference parser; differential through the binary with a capturing fake generator",
          "exploration",
-         "Every string of length <= 5 (quick) / <= 7 (thorough) over {a,space,',','=','\\\\'} in three argv spellings is compared with an independent reference parser (complete within that bound); beyond it, generated Unicode path/argument lists are rendered through the escaping function and must parse back exactly, in-process and through the real binary to a capturing generator. No counterexample within the bound and in N random cases; not a proof for longer strings.",
+         "Every string of length <= 5 (quick) / <= 7 (thorough) over {a,space,',','=','\\\\'} in three argv spellings is compared with an independent reference parser (complete within that bound); beyond it, generated Unicode path/argument lists are rendered through the escaping function and must parse back exactly, in-process and through the real binary to capturing generators (1..3 specifications over two generators, the same path twice in a row or with the other in between, values up to 5000 characters, up to 50 pairs: every specification starts its generator once with its own arguments). No counterexample within the bound and in N random cases; not a proof for longer strings.",
          "trusts the reference parser written from the statement (self-checked against the escaping function on every random case), clap's argv handling, and the fake generator's stdin capture",
          "DESIGN.md section 5, C19"),
  "C02": ("proptest choice-sequence grammar generator x layout metamorphosis; observed AST == canonical model (reference resolver)",
          "exploration",
-         "Well-formed multi-file programs are generated constructively from choice bytes and printed in 3 (quick) / 5 (thorough) token-level layouts each; after an error-free compile the program re-built from the AST through the public API must equal the abstract program field by field, for every layout. No counterexample in N generated programs of the stated distribution (class histogram in the evidence); not exhaustive.",
+         "Well-formed multi-file programs are generated constructively from choice bytes and printed in 3 (quick) / 5 (thorough) token-level layouts each; after an error-free compile the program re-built from the AST through the public API must equal the abstract program field by field, for every layout (files may also come without definitions, without a module declaration, with file attributes only; string arguments with backslashes at their edges). No counterexample in N generated programs of the stated distribution (class histogram in the evidence); not exhaustive.",
          "trusts the generator/printer pair (a printer bug shows up as a failure, not as a silent pass), the reference resolver of C03 for the resolved form of named references, and the typed projection of the five built-in attributes",
          "DESIGN.md section 5, C02"),
  "C03": ("bounded-exhaustive scope arrangements + proptest alias chains against a reference name table / scope resolver; differential on accept/reject, bindings, error placement, find_element",
          "exploration",
-         "All 746 496 arrangements of three nested module levels x same-named definition of every kind x 12 spellings x 8 positions x file orders (complete in the thorough tier, every 5th in quick) plus random alias chains and programs are resolved by an independent reference model; the compiler must accept exactly when the model resolves, bind to the designated entity with the accumulated attributes, and otherwise report an admissible code inside the offending reference.",
-         "trusts the reference resolver written from the statement; module/definition name collisions (F-15) are excluded",
+         "All 2 239 488 arrangements of three nested module levels (distinct names, and two schemes in which inner modules repeat an outer name) x same-named definition of every kind x 12 spellings x 8 positions x file orders (complete in the thorough tier, every 7th in quick), every kind of type in base / second-base / underlying position, plus random alias chains and programs are resolved by an independent reference model; the compiler must accept exactly when the model resolves, bind to the designated entity with the accumulated attributes, and otherwise report an admissible code inside the offending reference.",
+         "trusts the reference resolver written from the statement; generated programs contain no module/definition name collisions (C15 and C04 cover those)",
          "DESIGN.md section 5, C03"),
  "C04": ("proptest programs with injected violations + bounded-exhaustive small-scope families, judged by an independent table-driven rule checker (both directions)",
          "exploration",
-         "A reference checker implementing the whole rule catalogue recomputes the violated rules of every generated program (0..3 injections out of a 48-entry catalogue at boundary values, and five exhaustive small-scope families: tags/optional/compact over <= 3 members, stream placements, enum shapes, key types to depth 2, attribute x target). Well-formed <=> accepted, and every reported error code must belong to a rule the program violates. Complete within the small-scope families, sampled beyond.",
+         "A reference checker implementing the whole rule catalogue recomputes the violated rules of every generated program (0..3 injections out of a 49-entry catalogue at boundary values, and five exhaustive small-scope families: tags/optional/compact over <= 3 members, stream placements, enum shapes, key types to depth 2, attribute x target). Well-formed <=> accepted, and every reported error code must belong to a rule the program violates. Complete within the small-scope families, sampled beyond.",
          "trusts the reference rule checker (written from the statement and the language reference; validated by 0 disagreements on the pinned tree apart from the listed findings); which of several simultaneous violations is reported is not asserted",
          "DESIGN.md section 5, C04"),
  "C05": ("bounded-exhaustive graph enumeration (containment, alias, inheritance) with an SCC reference; chains validated through note spans",
          "exploration",
-         "Every containment graph over <= 3 struct/enum nodes x kinds x 10 wrapper forms (complete), every edge set over 4 nodes (complete in thorough), random graphs to 10 nodes, every alias assignment over <= 4 aliases and every inheritance relation over <= 4 interfaces: E032 is reported iff a node lies on a cycle, every on-cycle node is named, every reported chain is a closed path of written fields; loops are rejected without crash.",
-         "trusts the SCC analysis and the printer's recorded field positions; dense DAGs with exponentially many paths are excluded (F-01f)",
+         "Every containment graph over <= 3 struct/enum nodes x kinds x 10 wrapper forms (complete), every edge set over 4 nodes (complete in thorough), random graphs to 10 nodes, every assignment of 10 alias target forms (incl. Result forms and the same alias twice) over <= 4 aliases and every inheritance relation over <= 4 interfaces, in one module and spread over two modules that repeat simple names; enum nodes with field-less enumerators around the ones with fields: E032 is reported iff a node lies on a cycle, every on-cycle node is named, every reported chain is a closed path of written fields; loops are rejected without crash.",
+         "trusts the SCC analysis and the printer's recorded field positions; dense DAGs are C01's growth probe",
          "DESIGN.md section 5, C05"),
  "C06": ("bounded-exhaustive line sequences and expression strings + constructive random files against a line-oriented reference interpreter",
          "exploration",
@@ -68,7 +68,7 @@ CHECKS = {
          "DESIGN.md section 5, C12"),
  "C16": ("proptest doc-comment generator on every commentable position + defect catalogue; reference text / tag / link semantics; C02 comparison retained",
          "exploration",
-         "Generated doc comments (uniform, deeper, non-ASCII and mixed indentation, empty and white-space-only lines, inline links at line start / middle / end, @param / @returns / @see with inline and continuation messages; targets of every kind and scope distance incl. members, modules, primitives, missing names) on structs, fields, interfaces, operations, enums, enumerators, enumerator fields, custom types and aliases must come back as the written lines minus their common indentation, with the written tag identifiers and with links bound by the reference outward lookup started at the documented element; unresolved links, malformed (10 forms) and misfitting (4 forms) comments give warnings, never errors, and never cost an element.",
+         "Generated doc comments (uniform, deeper, non-ASCII and mixed indentation, empty and white-space-only lines, inline links at line start / middle / end, @param / @returns / @see with inline and continuation messages; targets of every kind and scope distance incl. members, modules, primitives, missing names) on structs, fields, interfaces, operations, enums, enumerators, enumerator fields, custom types and aliases must come back as the written lines minus their common indentation, with the written tag identifiers and with links bound by the reference outward lookup started at the documented element; unresolved links, malformed (10 forms) and misfitting (7 forms, three of them with two tags in one comment and the number of lints expected) comments give warnings, never errors, and never cost an element.",
          "exact text comparison only for uniformly indented comments; mixed-kind indentation and white-space-only lines are compared leniently (same links, same non-blank characters)",
          "DESIGN.md section 5, C16"),
  "C17": ("proptest directory trees and argument lists (symlinks, '..', '//', absolute paths, unreadable entries under a dropped euid) against a reference file-set model; subset through the binary",
@@ -78,27 +78,27 @@ CHECKS = {
          "DESIGN.md section 5, C17"),
  "C01": ("bounded-exhaustive token soups and type-form x position programs, proptest mutations / arbitrary Unicode / injected programs, enumerated cycle graphs, growth probe; isolated workers with crash journal and 20 s watchdog; binary runs with option vectors",
          "exploration",
-         "Every sequence of <= 2 (quick) / <= 3 (thorough) tokens over a 78-token alphabet in 8 contexts, 22 type forms in 14 positions, enumerated alias / inheritance / containment graphs, thousands of mutated generated programs and shipped .slice files, arbitrary Unicode and programs with injected violations are run through compile + diagnostic patching + both emitters in isolated worker processes (a death or a case over 20 s is seen by the supervisor, confirmed solo with a tripled bound, shrunk and reported), and a fraction through the real binary with 22 option vectors (exit status in {0,1,2}, no signal, no panic). A doubling probe on dense acyclic containment / inheritance graphs guards the time bound.",
-         "absence of crashes only for the explored inputs; 'grows gently' is asserted as the stated bound plus the doubling probe; undefined behaviour that happens not to crash is not seen (no sanitizer in the in-process tier)",
+         "Every sequence of <= 2 (quick) / <= 3 (thorough) tokens over a 78-token alphabet in 8 contexts, 22 type forms in 14 positions, enumerated alias / inheritance / containment graphs, thousands of mutated generated programs and shipped .slice files, arbitrary Unicode and programs with injected violations are run through compile + diagnostic patching + both emitters in isolated worker processes (a death or a case over 20 s is seen by the supervisor, confirmed solo with a tripled bound, shrunk and reported), and a fraction through the real binary with 22 option vectors (exit status in {0,1,2}, no signal, no panic). A probe over six dense shapes (acyclic containment and inheritance graphs, a cycle next to / behind a dense graph, an alias DAG), measured in CPU time, guards the time bound; definitions and modules named like primitives and raw source text (seeded, with a token dictionary, mostly for the coverage-guided stage) complete the families. One open finding (F-01h, exponential time on a DAG of aliases of anonymous types) is reported as KNOWN-FINDING.",
+         "absence of crashes only for the explored inputs; 'grows gently' is asserted as the stated bound plus the doubling probe; undefined behaviour that happens not to crash is only seen by the thorough tier's ASan stage",
          "DESIGN.md section 5, C01"),
  "C07": ("proptest run configurations through the real binary with instrumented fake generators (invocation log, output files)",
          "exploration",
-         "15 program states (clean, warnings only by three lints, one error of each phase incl. three I/O errors and a cross-file redefinition, in any of 1..4 source / reference files) x 0..3 generators (one optionally failing) x --dry-run x format x -A lists x -O: generators run and files appear iff no error and no --dry-run; warnings never prevent generation; exit status != 0 iff an error diagnostic was emitted.",
+         "16 program states (clean, warnings only by three lints, one error of each phase incl. three I/O errors, a cross-file redefinition and an illegal file attribute alone in a module-less file, in any of 1..4 source / reference files; DuplicateFile warning and module-less extra files next to any state) x 0..3 generators (one optionally failing by exit status, stderr or a signal after a complete reply) x --dry-run x format x -A lists x -O (also with identical files already in the working directory) x option order: generators run and files appear iff no error and no --dry-run; warnings never prevent generation; exit status != 0 iff an error diagnostic was emitted.",
          "trusts the fake generator's invocation log and the parsing of emitted diagnostics (JSON lines / 'error [' headers)",
          "DESIGN.md section 5, C07"),
  "C13": ("bounded-exhaustive template matrix (lint x site x placement x argument x decoy) with a reference predicate; proptest random programs with many lints and random suppressions judged by a location-based reference predicate; metamorphic with/without pairs; binary subset",
          "exploration",
-         "All 6048 cells of lint kind x 12 sites x 9 placements x 7 argument shapes (incl. separate attributes and a decoy allow closer to the site) are compiled in-process: the statement's predicate decides the expected level; the with/without pair must differ in nothing but that level and the added attribute (diagnostics, AST); 8 error kinds stay errors under allow(All) everywhere and -A All; through the binary: case-insensitive -A spellings, DuplicateFile, exit status, identical generator request. Complete over the matrix.",
+         "All 6048 cells of lint kind x 12 sites x 9 placements x 7 argument shapes (incl. separate attributes and a decoy allow closer to the site) are compiled in-process: the statement's predicate decides the expected level; the with/without pair must differ in nothing but that level and the added attribute (diagnostics, AST); random programs with many lints (deprecated uses, comments the lexer and the grammar of comments reject, misfitting tags, broken links) and 1..4 random suppressions are judged by a location-based reference predicate; 10 error templates stay errors under allow(All) everywhere, between the two uses of a repeated attribute, and -A All; through the binary: case-insensitive -A spellings, DuplicateFile, exit status, identical generator request. Complete over the matrix.",
          "trusts the reference predicate; for a single unnamed return value the element concerned is the operation",
          "DESIGN.md section 5, C13"),
  "C14": ("proptest bundles of diagnostic producers on real files; the emitted stream is parsed back and compared with the Diagnostic accessors (library) and with the binary's stderr / stdout / exit status",
          "exploration",
-         "Files with hostile names and text (quotes, backslashes, control and non-ASCII characters, tabs, CRLF) producing 0..30 diagnostics of every shape (no span / single line / multi-line / zero width; notes with and without span) are emitted in human and JSON format with colours forced on or disabled and five -A lists: JSON = exactly one five-key object per non-silenced diagnostic in order; human = header, location line, snippet with the right line numbers and exactly the spanned cells underlined (tab = 4), notes; silenced lints leave no trace; no ESC with colours disabled; binary stderr equals the library stream (plus exactly one E001 per failing generator), totals and exit status match.",
+         "Files with hostile names and text (quotes, backslashes, control and non-ASCII characters, tabs, CRLF) producing 0..30 diagnostics of every shape (no span / single line / multi-line / zero width; notes with and without span) are emitted in human and JSON format with colours forced on or disabled and five -A lists: JSON = exactly one five-key object per non-silenced diagnostic in order; human = header, location line, snippet with the right line numbers and exactly the spanned cells underlined (tab = 4), notes; silenced lints leave no trace; a shown warning is never one the -A list names; diagnostics of the parsing phase come file by file in source order; notes that point into another file show that file's line; no ESC with colours disabled; binary stderr equals the library stream (plus exactly one E001 per failing generator), totals and exit status match.",
          "trusts the re-parser of the human format (written from the statement: tab = 4 cells); user text has no ESC and no line break",
          "DESIGN.md section 5, C14"),
  "C15": ("proptest multi-file programs on real files: every permutation and source/reference assignment in-process; collision / preprocessor / cycle templates; repeated and permuted runs of the real binary with decoded requests",
          "exploration",
-         "Generated 1..4-file programs (valid, with warnings, with one injected error) are compiled in every file order (all 24 for 4 files) and every source/reference assignment: acceptance, per-path observed content and the multiset of warnings must not change; 20 templates target name collisions (incl. definition vs nested module), preprocessor symbols across files and cycles spread over files; the same argv twice in fresh processes must give byte-identical streams and requests, permuted runs the same per-path decoded request.",
+         "Generated 1..4-file programs (valid, with warnings, with one injected error) are compiled in every file order (all 24 for 4 files) and every source/reference assignment: acceptance, per-path observed content and the multiset of warnings must not change; 34 templates target name collisions (definition vs definition, vs nested module, vs enclosing scope of a deeper module; member vs module), preprocessor symbols across files, cycles spread over files and tag-only doc comments; one file listed twice, adjacent or apart; in the binary family an extra module-less file at a drawn position and five generator arguments; the same argv twice in fresh processes must give byte-identical streams and requests, permuted runs the same per-path decoded request.",
          "hash-map iteration order differs between processes, so in-process repetition is weaker than the two-process comparison (both are done); error diagnostics of rejected programs are not compared across orders",
          "DESIGN.md section 5, C15"),
  "C18": ("fault enumeration: proptest-drawn combinations of 1..3 generators x process-level and reply-level fault catalogue x output directory situations, through the real binary, judged by the reference reply decoder",
